@@ -653,6 +653,78 @@ def rowloop_forms(rng):
                 yield kind, odd, f
 
 
+# ------------------------------------------------------------------------------- stream T: near-miss type names
+
+
+SELECT_COMMANDS = ()
+
+
+def type_vocabulary():
+    """the type table and alias tables of the tree under test (what the translator turns into Pyxv.Gen.*)"""
+    from pyxform import aliases
+    from pyxform.question_type_dictionary import QUESTION_TYPE_DICT
+
+    known = set(QUESTION_TYPE_DICT) | set(getattr(aliases, "_type_alias_map", {})) | set(aliases.settings_header)
+    known |= {"xml-external", "csv-external", "audit", "entity"}
+    global SELECT_COMMANDS
+    SELECT_COMMANDS = tuple(k + " " for k in aliases.select)
+    return known, sorted(QUESTION_TYPE_DICT) + ["xml-external", "csv-external"]
+
+
+def near_misses(known, types):
+    """prefix- / suffix-preserving typos of every known type name: transposed inner letters, one letter changed, first
+    token (up to `-`, `_` or space) replaced keeping the suffix, last token replaced keeping the prefix, a letter doubled
+    or dropped.  Strings that are themselves valid types / aliases are not near misses."""
+    out = []
+    for t in types:
+        cands = set()
+        if len(t) > 3:
+            cands.add(t[0] + t[2] + t[1] + t[3:])
+            cands.add(t[:-1])
+            cands.add(t + t[-1])
+            mid = len(t) // 2
+            cands.add(t[:mid] + ("q" if t[mid] != "q" else "z") + t[mid + 1:])
+        for sep in ("-", "_", " "):
+            if sep in t:
+                head, _, tail = t.partition(sep)
+                cands.add(head[::-1] + sep + tail if head[::-1] != head else "zz" + sep + tail)
+                cands.add("json" + sep + tail)
+                h2, _, t2 = t.rpartition(sep)
+                cands.add(h2 + sep + (t2[::-1] if t2[::-1] != t2 else "zz"))
+                cands.add(h2 + sep + "other")
+        for c in sorted(cands):
+            # (a select command followed by a word is a select row whose list is that word: another catalogue entry)
+            if c and c not in known and c.strip() == c and not c.startswith(("begin", "end ", "end_")) \
+                    and not c.startswith(SELECT_COMMANDS) and not c.startswith("osm "):
+                out.append((t, c))
+    return out
+
+
+def near_miss_cases():
+    known, types = type_vocabulary()
+    for k, (t, typo) in enumerate(near_misses(known, types)):
+        rows = [{"type": "text", "name": "a", "label": "A"}, {"type": typo, "name": "nm", "label": "N"}]
+        if k % 3 == 1:
+            rows = [{"type": "begin group", "name": "g", "label": "G"}] + rows + [{"type": "end group"}]
+        elif k % 3 == 2:
+            rows = [{"type": "begin repeat", "name": "g", "label": "G"}] + rows + [{"type": "end repeat"}]
+        yield {"stream": "near-miss", "of": t, "typo": typo, "form": {"survey": rows}, "via": "dict"}
+
+
+def near_miss_case(ctx, case):
+    r = run_case(case)
+    ctx.count(f"T:{r['class']}")
+    if not check_no_internal(ctx, case, r):
+        return
+    extra = {"mutation": "near_miss_type", "site": case["typo"], "msg": r.get("msg", "")[:300]}
+    if r["class"] == "ok":
+        ctx.fail(Failure("accepted-broken", f"type {case['typo']!r} (near miss of {case['of']!r}) is not in the type table but was accepted",
+                         case, extra=extra))
+    elif case["typo"].lower() not in r["msg"].lower() and "type" not in r["msg"].lower():
+        ctx.fail(Failure("not-located", f"unknown type {case['typo']!r}: message names neither the type nor the column: {r['msg'][:200]!r}",
+                         case, extra=extra))
+
+
 # ------------------------------------------------------------------------------- stream P: header splitting, settings reads
 
 ODD_HEADERS = ["x:jr", "a:b:jr", "jr", "jr:jr", "a:jr:b", "bind:jr:count", " x : jr ", "jr:", "label:jr", "x:jr:y:jr",
@@ -812,14 +884,19 @@ def explore(ctx, factor, bs):
             case = {"stream": "rowloop", "kind": kind, "odd": odd, "form": f, "via": "dict"}
             rowloop_case(ctx, case)
             ctx.record(case, True)
+    # ---- T: every near miss of every name of the type table is an unknown type
+    if factor == 1:
+        for case in near_miss_cases():
+            near_miss_case(ctx, case)
+            ctx.record(case, True)
     # ---- P: header splitting and the settings reads (model Pyxv.PreLoop)
     if factor == 1:
         for case in preloop_cases():
             preloop_case(ctx, case)
             ctx.record(case, True)
     # ---- A: catalogue
-    n_forms = ctx.pick(14, 85) * factor
-    site_cap = ctx.pick(40, 120)
+    n_forms = ctx.pick(12, 70) * factor
+    site_cap = ctx.pick(32, 110)
     applicable = {m[0]: 0 for m in c17_mut.CATALOGUE}
     done = 0
     tries = 0
@@ -852,7 +929,7 @@ def explore(ctx, factor, bs):
     ctx.notes["catalogue_applications"] = applicable
     ctx.notes["catalogue_base_forms"] = done
     # ---- B: vocabulary fuzz
-    n_fuzz = ctx.pick(7000, 100000) * factor
+    n_fuzz = ctx.pick(6000, 90000) * factor
     for i in range(n_fuzz):
         k = i % 10
         if k < 5:
@@ -887,6 +964,8 @@ def replay(ctx, payload, bs):
         rowloop_case(ctx, case)
     elif case.get("stream") == "preloop":
         preloop_case(ctx, case)
+    elif case.get("stream") == "near-miss":
+        near_miss_case(ctx, case)
     else:
         check_no_internal(ctx, case, run_case(case))
     return (len(ctx.failures), len(ctx.mismatches)) == before
